@@ -1,11 +1,890 @@
-// Package c13 - correspondence harness for C13 (stub: not built yet).
+// Package c13 materialises real trust-store directory trees (valid and broken in every way the
+// property's quantifier lists), loads them through truststore.NewX509TrustStore(dir.NewSysFS(root))
+// .GetCertificates and reports ok / the returned certificates as ids of a minted pool. A second
+// stream of cases exercises file.IsValidFileName alone against the Lean recogniser.
 package c13
 
 import (
-	"errors"
+	"bytes"
+	"context"
+	"crypto/rand"
+	"crypto/x509"
+	"encoding/pem"
+	"fmt"
+	"math/big"
+	"os"
+	"path/filepath"
+	"strings"
+	"time"
 
+	"github.com/notaryproject/notation-go/dir"
+	"github.com/notaryproject/notation-go/internal/file"
+	"github.com/notaryproject/notation-go/verifier/truststore"
 	"github.com/notaryproject/notation-go/xverif/common"
 )
 
+// ---- JSON shapes (Lean: NotationModel.C13.Input / Obs) -------------------------------------
+
+type CertFlags struct {
+	ID           int  `json:"id"`
+	IsCA         bool `json:"isCA"`
+	SelfSig      bool `json:"selfSig"`
+	SignOk       bool `json:"signOk"`
+	SubjEqIssuer bool `json:"subjEqIssuer"`
+}
+
+type Entry struct {
+	Name    string      `json:"name"`
+	Kind    string      `json:"kind"` // file | dir | symlink
+	ParseOk bool        `json:"parseOk"`
+	Certs   []CertFlags `json:"certs"`
+	Enc     string      `json:"enc"`
+}
+
+type Input struct {
+	Op        string  `json:"op"` // load | nameCheck | storePath
+	StoreType string  `json:"storeType"`
+	Name      string  `json:"name"`
+	DirKind   string  `json:"dirKind"` // missing | dir | symlinkToDir | file
+	Entries   []Entry `json:"entries"`
+	Decoys    bool    `json:"decoys"`
+}
+
+type Obs struct {
+	Ok    bool   `json:"ok"`
+	Certs []int  `json:"certs"`
+	Path  string `json:"path"`
+}
+
+const unknownCert = 999999
+
+// ---- the certificate pool --------------------------------------------------------------------
+
+type poolCert struct {
+	flags CertFlags
+	cert  *x509.Certificate
+	class string
+}
+
+type world struct {
+	fast   string     // scratch directory on tmpfs ("" when unavailable)
+	pool   []poolCert // id = index
+	decoys []poolCert // ids 900..
+	byRaw  map[string]int
+	byID   map[int]*x509.Certificate
+}
+
+// mint one certificate of the class (ca, certSign, selfKey, sameSubject):
+// selfKey: signed with its own key; sameSubject: issuer name = subject name.
+func mint(tag string, ca, certSign, selfKey, sameSubject bool) *x509.Certificate {
+	subj := common.Name("c13 subject " + tag)
+	ku := x509.KeyUsageDigitalSignature
+	if ca && certSign {
+		ku = x509.KeyUsageCertSign | x509.KeyUsageCRLSign
+	}
+	key := common.NewECKey()
+	if selfKey && sameSubject {
+		return common.MakeCert(common.CertOpts{Subject: subj, CA: ca, PathLen: -1, KeyUsage: ku, Key: key}).Cert
+	}
+	issuer := subj
+	if !sameSubject {
+		issuer = common.Name("c13 issuer " + tag)
+	}
+	parentKey := key
+	if !selfKey {
+		parentKey = common.NewECKey()
+	}
+	parent := common.MakeCert(common.CertOpts{Subject: issuer, CA: true, PathLen: -1, Key: parentKey})
+	return common.MakeCert(common.CertOpts{Subject: subj, CA: ca, PathLen: -1, KeyUsage: ku, Key: key, Parent: parent}).Cert
+}
+
+// mintRaw builds a self-signed certificate directly from a template (shapes MakeCert cannot produce).
+func mintRaw(t *x509.Certificate) *x509.Certificate {
+	key := common.NewECKey()
+	t.SerialNumber = big.NewInt(time.Now().UnixNano())
+	t.NotBefore = time.Now().Add(-time.Hour)
+	t.NotAfter = time.Now().Add(24 * time.Hour)
+	der, err := x509.CreateCertificate(rand.Reader, t, t, key.Public(), key)
+	if err != nil {
+		panic(err)
+	}
+	c, err := x509.ParseCertificate(der)
+	if err != nil {
+		panic(err)
+	}
+	return c
+}
+
+// measured recomputes the four flags from the minted certificate with the standard library
+// only; used to make sure the pool is what it is declared to be.
+func measured(c *x509.Certificate) (isCA, selfSig, signOk, subjEq, sigFromSelf bool) {
+	isCA = c.IsCA
+	selfSig = c.CheckSignature(c.SignatureAlgorithm, c.RawTBSCertificate, c.Signature) == nil
+	signOk = !(c.Version == 3 && !c.BasicConstraintsValid || c.BasicConstraintsValid && !c.IsCA) &&
+		!(c.KeyUsage != 0 && c.KeyUsage&x509.KeyUsageCertSign == 0)
+	subjEq = bytes.Equal(c.RawSubject, c.RawIssuer)
+	sigFromSelf = c.CheckSignatureFrom(c) == nil
+	return
+}
+
+func buildWorld(c *common.Ctx) (*world, error) {
+	w := &world{byRaw: map[string]int{}, byID: map[int]*x509.Certificate{}}
+	add := func(class string, cert *x509.Certificate, isCA, selfSig, signOk, subjEq bool) error {
+		a, b, s, d, from := measured(cert)
+		if a != isCA || b != selfSig || s != signOk || d != subjEq || from != (signOk && selfSig) {
+			return fmt.Errorf("pool certificate %s: declared (%v,%v,%v,%v) but measured (%v,%v,%v,%v) CheckSignatureFrom(self)=%v",
+				class, isCA, selfSig, signOk, subjEq, a, b, s, d, from)
+		}
+		id := len(w.pool)
+		w.pool = append(w.pool, poolCert{CertFlags{id, isCA, selfSig, signOk, subjEq}, cert, class})
+		w.byRaw[string(cert.Raw)] = id
+		w.byID[id] = cert
+		return nil
+	}
+	bools := []bool{true, false}
+	for rep := 0; rep < 2; rep++ {
+		for _, ca := range bools {
+			for _, certSign := range bools {
+				if !ca && certSign {
+					continue
+				}
+				for _, selfKey := range bools {
+					for _, same := range bools {
+						class := fmt.Sprintf("ca=%v,certSign=%v,selfKey=%v,sameSubject=%v", ca, certSign, selfKey, same)
+						cert := mint(fmt.Sprintf("%s #%d", class, rep), ca, certSign, selfKey, same)
+						if err := add(class, cert, ca, selfKey, ca && certSign, same); err != nil {
+							return nil, err
+						}
+					}
+				}
+			}
+		}
+	}
+	// a self-signed CA without any key-usage extension: may sign certificates
+	if err := add("root without key usage", mintRaw(&x509.Certificate{Subject: common.Name("c13 root no ku"),
+		BasicConstraintsValid: true, IsCA: true, MaxPathLen: -1}), true, true, true, true); err != nil {
+		return nil, err
+	}
+	// a self-signed v3 certificate without basic constraints: not a CA, may not sign certificates
+	if err := add("self-signed without basic constraints", mintRaw(&x509.Certificate{Subject: common.Name("c13 no bc"),
+		KeyUsage: x509.KeyUsageDigitalSignature}), false, true, false, true); err != nil {
+		return nil, err
+	}
+	// an RSA root
+	rsaRoot := common.MakeCert(common.CertOpts{Subject: common.Name("c13 rsa root"), CA: true, PathLen: -1,
+		Key: common.PoolKey(c.CacheDir, "RSA-2048")}).Cert
+	if err := add("rsa root", rsaRoot, true, true, true, true); err != nil {
+		return nil, err
+	}
+	for k := 0; k < 3; k++ {
+		cert := mint(fmt.Sprintf("decoy %d", k), true, true, true, true)
+		id := 900 + k
+		w.decoys = append(w.decoys, poolCert{CertFlags{id, true, true, true, true}, cert, "decoy"})
+		w.byRaw[string(cert.Raw)] = id
+		w.byID[id] = cert
+	}
+	return w, nil
+}
+
+// acceptableFor is used ONLY to bias the generator towards loadable stores; the verdict on
+// every case comes from the Lean model and clauses.
+func acceptableFor(storeType string, f CertFlags) bool {
+	if !(f.IsCA || f.SelfSig) {
+		return false
+	}
+	if storeType == "tsa" {
+		return f.SelfSig && f.SignOk && f.SubjEqIssuer
+	}
+	return true
+}
+
+func (w *world) split(storeType string) (good, bad []CertFlags) {
+	for _, p := range w.pool {
+		if acceptableFor(storeType, p.flags) {
+			good = append(good, p.flags)
+		} else {
+			bad = append(bad, p.flags)
+		}
+	}
+	return
+}
+
+// ---- concretisation -----------------------------------------------------------------------------
+
+func (w *world) pemOf(cs []CertFlags) []byte {
+	var out []byte
+	for _, f := range cs {
+		out = append(out, pem.EncodeToMemory(&pem.Block{Type: "CERTIFICATE", Bytes: w.byID[f.ID].Raw})...)
+	}
+	return out
+}
+
+func (w *world) derOf(cs []CertFlags) []byte {
+	var out []byte
+	for _, f := range cs {
+		out = append(out, w.byID[f.ID].Raw...)
+	}
+	return out
+}
+
+// content of a regular-file entry
+func (w *world) fileContent(e Entry) ([]byte, error) {
+	if e.ParseOk {
+		if len(e.Certs) == 0 {
+			return []byte{}, nil // the only content ReadCertificateFile parses into zero certificates
+		}
+		switch e.Enc {
+		case "pem":
+			return w.pemOf(e.Certs), nil
+		case "der":
+			return w.derOf(e.Certs), nil
+		case "pemNoise":
+			out := []byte("# trusted roots\nsome leading text\n")
+			for _, f := range e.Certs {
+				out = append(out, w.pemOf([]CertFlags{f})...)
+				out = append(out, []byte("subject: whatever\n\n")...)
+			}
+			return append(out, []byte("trailing \x01\x02 bytes")...), nil
+		case "pemCRLF":
+			return bytes.ReplaceAll(w.pemOf(e.Certs), []byte("\n"), []byte("\r\n")), nil
+		}
+		return nil, fmt.Errorf("unknown encoding %q of a parsable file", e.Enc)
+	}
+	switch e.Enc {
+	case "garbage":
+		return []byte("\x00\x01\x02 this is not a certificate \xfe\xff"), nil
+	case "text":
+		return []byte("hello world\n"), nil
+	case "blank":
+		return []byte("\n"), nil
+	case "pemBadBody":
+		return append(w.pemOf(e.Certs), pem.EncodeToMemory(&pem.Block{Type: "CERTIFICATE", Bytes: []byte("not der at all")})...), nil
+	case "pemKeyBlock":
+		return append(w.pemOf(e.Certs), pem.EncodeToMemory(&pem.Block{Type: "PRIVATE KEY", Bytes: []byte{0x30, 0x03, 0x02, 0x01, 0x00}})...), nil
+	case "derTrailing":
+		return append(w.derOf(e.Certs), []byte("\x00\x01trailing garbage")...), nil
+	case "derTruncated":
+		d := w.derOf(e.Certs)
+		if len(d) > 20 {
+			return d[:len(d)-17], nil
+		}
+		return []byte{0x30, 0x82, 0x01}, nil
+	}
+	return nil, fmt.Errorf("unknown encoding %q of an unparsable file", e.Enc)
+}
+
+var parsableEncs = []string{"pem", "der", "pemNoise", "pemCRLF"}
+var brokenEncs = []string{"garbage", "text", "blank", "pemBadBody", "pemKeyBlock", "derTrailing", "derTruncated"}
+var symlinkEncs = []string{"toFile", "toDir", "dangling"}
+
+// populate creates the entries inside dirPath, in list order.
+func (w *world) populate(root, dirPath string, entries []Entry) error {
+	targets := filepath.Join(root, "link-targets")
+	for k, e := range entries {
+		p := filepath.Join(dirPath, e.Name)
+		switch e.Kind {
+		case "file":
+			b, err := w.fileContent(e)
+			if err != nil {
+				return err
+			}
+			if err := os.WriteFile(p, b, 0o644); err != nil {
+				return err
+			}
+		case "dir":
+			if err := os.Mkdir(p, 0o755); err != nil {
+				return err
+			}
+			if len(e.Certs) > 0 {
+				if err := os.WriteFile(filepath.Join(p, "inner.pem"), w.pemOf(e.Certs), 0o644); err != nil {
+					return err
+				}
+			}
+		case "symlink":
+			if err := os.MkdirAll(targets, 0o755); err != nil {
+				return err
+			}
+			t := filepath.Join(targets, fmt.Sprintf("t%d", k))
+			switch e.Enc {
+			case "toFile":
+				if err := os.WriteFile(t, w.pemOf(e.Certs), 0o644); err != nil {
+					return err
+				}
+			case "toDir":
+				if err := os.Mkdir(t, 0o755); err != nil {
+					return err
+				}
+				if err := os.WriteFile(filepath.Join(t, "inner.pem"), w.pemOf(e.Certs), 0o644); err != nil {
+					return err
+				}
+			case "dangling":
+			default:
+				return fmt.Errorf("unknown symlink encoding %q", e.Enc)
+			}
+			if err := os.Symlink(t, p); err != nil {
+				return err
+			}
+		default:
+			return fmt.Errorf("unknown entry kind %q", e.Kind)
+		}
+	}
+	return nil
+}
+
+// the harness's own idea of a clean case (known type, plain name): for these the tree must be
+// materialised exactly; for all others materialisation is a best-effort temptation.
+func cleanType(t string) bool { return t == "ca" || t == "signingAuthority" || t == "tsa" }
+func cleanName(n string) bool {
+	if n == "" || n == "." || n == ".." {
+		return false
+	}
+	for i := 0; i < len(n); i++ {
+		b := n[i]
+		if !(b >= 'a' && b <= 'z' || b >= 'A' && b <= 'Z' || b >= '0' && b <= '9' || b == '_' || b == '.' || b == '-') {
+			return false
+		}
+	}
+	return true
+}
+
+func inside(p, base string) bool { return p == base || strings.HasPrefix(p, base+string(filepath.Separator)) }
+
+// materialise builds the world of one case under caseRoot and returns the SysFS root.
+func (w *world) materialise(caseRoot string, in Input) (string, error) {
+	root := filepath.Join(caseRoot, "r", "r", "cfg")
+	if err := os.MkdirAll(root, 0o755); err != nil {
+		return "", err
+	}
+	clean := cleanType(in.StoreType) && cleanName(in.Name)
+	var storePath string
+	if clean {
+		// plain concatenation: independent of path.Join / filepath.Join
+		storePath = root + "/truststore/x509/" + in.StoreType + "/" + in.Name
+	} else {
+		if strings.ContainsRune(in.StoreType, 0) || strings.ContainsRune(in.Name, 0) {
+			return root, nil
+		}
+		storePath = filepath.Join(root, "truststore", "x509", in.StoreType, in.Name)
+		if !inside(storePath, caseRoot) || storePath == caseRoot {
+			return root, nil
+		}
+	}
+	build := func() error {
+		if err := os.MkdirAll(filepath.Dir(storePath), 0o755); err != nil {
+			return err
+		}
+		switch in.DirKind {
+		case "missing":
+		case "dir":
+			if err := os.MkdirAll(storePath, 0o755); err != nil {
+				return err
+			}
+			return w.populate(root, storePath, in.Entries)
+		case "symlinkToDir":
+			t := filepath.Join(root, "link-targets", "store")
+			if err := os.MkdirAll(t, 0o755); err != nil {
+				return err
+			}
+			if err := w.populate(root, t, in.Entries); err != nil {
+				return err
+			}
+			return os.Symlink(t, storePath)
+		case "file":
+			var all []CertFlags
+			for _, e := range in.Entries {
+				all = append(all, e.Certs...)
+			}
+			if len(all) == 0 {
+				all = []CertFlags{w.decoys[0].flags}
+			}
+			return os.WriteFile(storePath, w.pemOf(all), 0o644)
+		default:
+			return fmt.Errorf("unknown dirKind %q", in.DirKind)
+		}
+		return nil
+	}
+	if err := build(); err != nil && clean {
+		return "", fmt.Errorf("materialise %+v: %w", in, err)
+	}
+	if in.Decoys {
+		x509dir := filepath.Join(root, "truststore", "x509")
+		var ds []string
+		ds = append(ds, filepath.Join(root, "decoy-root.pem"), filepath.Join(root, "truststore", "decoy.pem"),
+			filepath.Join(x509dir, "decoy-x509.pem"))
+		if clean {
+			other := map[string]string{"ca": "tsa", "tsa": "signingAuthority", "signingAuthority": "ca"}[in.StoreType]
+			ds = append(ds,
+				filepath.Join(x509dir, in.StoreType, "decoy-loose-certificate.pem"),
+				filepath.Join(x509dir, in.StoreType, "decoy-sibling-store", "d.pem"),
+				filepath.Join(x509dir, other, in.Name, "d.pem"),
+				filepath.Join(x509dir, in.Name, "d.pem"),
+				filepath.Join(root, in.StoreType, in.Name, "d.pem"))
+		} else {
+			ds = append(ds, filepath.Join(x509dir, "ca", "decoy-loose-certificate.pem"),
+				filepath.Join(x509dir, "ca", "decoy-sibling-store", "d.pem"))
+		}
+		for k, d := range ds {
+			if inside(d, storePath) || inside(storePath, d) {
+				continue // never inside (or in place of) the store itself
+			}
+			if os.MkdirAll(filepath.Dir(d), 0o755) != nil {
+				continue
+			}
+			if _, err := os.Lstat(d); err == nil {
+				continue
+			}
+			os.WriteFile(d, w.pemOf([]CertFlags{w.decoys[k%len(w.decoys)].flags}), 0o644)
+		}
+	}
+	return root, nil
+}
+
+func (w *world) runLoad(c *common.Ctx, n int, in Input) (Obs, error) {
+	// most trees live on tmpfs (five times faster); every eighth one on the file system of c.WorkDir
+	base := c.WorkDir
+	if w.fast != "" && n%8 != 0 {
+		base = w.fast
+	}
+	caseRoot := filepath.Join(base, fmt.Sprintf("k%d", n))
+	defer os.RemoveAll(caseRoot)
+	root, err := w.materialise(caseRoot, in)
+	if err != nil {
+		return Obs{}, err
+	}
+	ts := truststore.NewX509TrustStore(dir.NewSysFS(root))
+	certs, err := ts.GetCertificates(context.Background(), truststore.Type(in.StoreType), in.Name)
+	o := Obs{Ok: err == nil, Certs: []int{}}
+	for _, cert := range certs {
+		id := unknownCert
+		if cert != nil {
+			if k, ok := w.byRaw[string(cert.Raw)]; ok {
+				id = k
+			}
+		}
+		o.Certs = append(o.Certs, id)
+	}
+	return o, nil
+}
+
+// ---- generators ----------------------------------------------------------------------------
+
+var validTypes = []string{"ca", "signingAuthority", "tsa"}
+var invalidTypes = []string{"", "CA", "Tsa", "tsa ", "x", "ca/", "../ca", "ca/../tsa", ".", "..", "signingauthority", "x509", "ca\n"}
+var validNames = []string{"store", "a.b", "my-store_1", "A", "0", "...", "..a", "a..", ".hidden", "-", "_", "a.b.c", "x.pem",
+	strings.Repeat("n", 200)}
+var invalidNames = []string{"", ".", "..", "a/b", "../x", "../../x", "a/../b", "/abs", "a b", " a", "a ", "a\n", "a\\b", "ä", "a*", "a:b",
+	"a+b", "a,b", "a@b", "~", "a/", "./a", "a/.", "a/..", "..\\x", "a\x00b", "store\t", "störe", "ａ", "a "}
+var entryNames = []string{"a.pem", "b.crt", "c.cer", "root.pem", "ca.der", "Z.pem", "0.pem", "_x", "-y.pem", ".hidden", "cert", "CERT",
+	"a", "b", "aa", "a.pem.bak", "ü.pem", "中.crt", "a b.pem", "a-b", "a_b", "a.b", ".DS_Store", "A.pem", "~tmp", "z"}
+
+func pick[T any](c *common.Ctx, xs []T) T { return xs[c.Rand.Intn(len(xs))] }
+
+func (w *world) emitLoad(c *common.Ctx, n *int, in Input, tag string) error {
+	if in.Entries == nil {
+		in.Entries = []Entry{}
+	}
+	for k := range in.Entries {
+		if in.Entries[k].Certs == nil {
+			in.Entries[k].Certs = []CertFlags{}
+		}
+	}
+	in.Op = "load"
+	o, err := w.runLoad(c, *n, in)
+	*n++
+	if err != nil {
+		return err
+	}
+	c.Emit(in, o)
+	c.Count("stream=" + tag)
+	if o.Ok {
+		c.Count("load=ok")
+		c.Count(fmt.Sprintf("ok-certs=%d", min(len(o.Certs), 6)))
+	} else {
+		c.Count("load=error")
+	}
+	if cleanType(in.StoreType) {
+		c.Count("type=" + in.StoreType)
+	} else {
+		c.Count("type=invalid")
+	}
+	if cleanName(in.Name) {
+		c.Count("name=plain")
+	} else {
+		c.Count("name=not-plain")
+	}
+	c.Count("dir=" + in.DirKind)
+	c.Count(fmt.Sprintf("entries=%d", min(len(in.Entries), 6)))
+	return nil
+}
+
+func file1(name, enc string, certs ...CertFlags) Entry {
+	return Entry{Name: name, Kind: "file", ParseOk: true, Certs: certs, Enc: enc}
+}
+
+// systematic: types x names x directory kinds x entry templates
+func (w *world) systematic(c *common.Ctx, n *int) error {
+	types := append(append([]string{}, validTypes...), "", "CA", "../ca", "x")
+	names := []string{"store", "a.b", "...", ".hidden", "-", "", ".", "..", "a/b", "../x", "a b", "a\n", "a\\b", "ä"}
+	if c.Thorough() {
+		types = append(append([]string{}, validTypes...), invalidTypes...)
+		names = append(append([]string{}, validNames...), invalidNames...)
+	}
+	for _, t := range types {
+		good, bad := w.split(t)
+		if len(good) < 2 || len(bad) < 1 {
+			return fmt.Errorf("pool has too few good/bad certificates for type %q", t)
+		}
+		for ni, name := range names {
+			for di, dk := range []string{"dir", "missing", "symlinkToDir", "file"} {
+				g, g2, b := good[(ni+di)%len(good)], good[(ni+2*di+1)%len(good)], bad[(ni+di)%len(bad)]
+				templates := [][]Entry{
+					{},
+					{file1("a.pem", "pem", g)},
+					{file1("a.der", "der", g, g2)},
+					{file1("b.pem", "pem", g), file1("a.pem", "pem", g2), file1("Z.crt", "der", g)},
+					{file1("a.pem", "pem", g), {Name: "sub", Kind: "dir", Certs: []CertFlags{g2}, Enc: "dir"}},
+					{file1("a.pem", "pem", g), {Name: "link.pem", Kind: "symlink", Certs: []CertFlags{g2}, Enc: "toFile"}},
+					{file1("a.pem", "pem", g), {Name: "junk", Kind: "file", ParseOk: false, Enc: "garbage"}},
+					{file1("a.pem", "pem", g), {Name: "empty.pem", Kind: "file", ParseOk: true, Enc: "empty"}},
+					{file1("a.pem", "pem", g, b)},
+					{file1("a.pem", "pem", g), file1("b.pem", "pem", b)},
+					{file1("a.pem", "pemNoise", g, g2)},
+				}
+				for ti, tpl := range templates {
+					if err := w.emitLoad(c, n, Input{StoreType: t, Name: name, DirKind: dk, Entries: tpl, Decoys: (ni+di+ti)%2 == 0}, "systematic"); err != nil {
+						return err
+					}
+				}
+			}
+		}
+	}
+	return nil
+}
+
+// perCert: every pool certificate alone, every ordered pair in one file and in two files, per valid type
+func (w *world) perCert(c *common.Ctx, n *int) error {
+	for _, t := range validTypes {
+		for _, p := range w.pool {
+			for _, enc := range []string{"pem", "der"} {
+				if err := w.emitLoad(c, n, Input{StoreType: t, Name: "s", DirKind: "dir", Entries: []Entry{file1("c."+enc, enc, p.flags)}}, "single-certificate"); err != nil {
+					return err
+				}
+			}
+			for _, q := range w.pool {
+				if !c.Thorough() && (p.flags.ID+q.flags.ID)%3 != 0 {
+					continue
+				}
+				enc := parsableEncs[(p.flags.ID+q.flags.ID)%len(parsableEncs)]
+				if err := w.emitLoad(c, n, Input{StoreType: t, Name: "s", DirKind: "dir", Entries: []Entry{file1("pair", enc, p.flags, q.flags)}}, "certificate-pair-one-file"); err != nil {
+					return err
+				}
+				// two files created in the order (second-by-name, first-by-name)
+				if err := w.emitLoad(c, n, Input{StoreType: t, Name: "s", DirKind: "dir", Entries: []Entry{file1("b.pem", "pem", q.flags), file1("a.pem", enc, p.flags)}}, "certificate-pair-two-files"); err != nil {
+					return err
+				}
+			}
+		}
+	}
+	return nil
+}
+
+func (w *world) randomCerts(c *common.Ctx, from []CertFlags, lo, hi int) []CertFlags {
+	k := lo + c.Rand.Intn(hi-lo+1)
+	out := make([]CertFlags, 0, k)
+	for i := 0; i < k; i++ {
+		out = append(out, pick(c, from))
+	}
+	return out
+}
+
+func randomName(c *common.Ctx) string {
+	const in = "abzAZ09_.-"
+	const out = "/\\ :*@+,~\n"
+	k := 1 + c.Rand.Intn(6)
+	var b strings.Builder
+	for i := 0; i < k; i++ {
+		if c.Rand.Intn(12) == 0 {
+			b.WriteByte(out[c.Rand.Intn(len(out))])
+		} else {
+			b.WriteByte(in[c.Rand.Intn(len(in))])
+		}
+	}
+	return b.String()
+}
+
+// random: a loadable store with 0, 1 or several injected faults
+func (w *world) random(c *common.Ctx, n *int, count int) error {
+	for it := 0; it < count; it++ {
+		t := pick(c, validTypes)
+		good, bad := w.split(t)
+		in := Input{StoreType: t, Name: pick(c, validNames), DirKind: "dir", Decoys: c.Rand.Intn(2) == 0}
+		if c.Rand.Intn(3) == 0 {
+			in.Name = randomName(c)
+		}
+		ne := 1 + c.Rand.Intn(5)
+		perm := c.Rand.Perm(len(entryNames))
+		for k := 0; k < ne; k++ {
+			in.Entries = append(in.Entries, file1(entryNames[perm[k]], pick(c, parsableEncs), w.randomCerts(c, good, 1, 3)...))
+		}
+		faults := 0
+		switch r := c.Rand.Intn(10); {
+		case r < 4:
+		case r < 8:
+			faults = 1
+		default:
+			faults = 2 + c.Rand.Intn(2)
+		}
+		for f := 0; f < faults; f++ {
+			k := c.Rand.Intn(len(in.Entries))
+			switch fault := c.Rand.Intn(12); fault {
+			case 0:
+				in.StoreType = pick(c, invalidTypes)
+				c.Count("fault=type")
+			case 1:
+				in.Name = pick(c, invalidNames)
+				c.Count("fault=name")
+			case 2:
+				in.DirKind = pick(c, []string{"missing", "symlinkToDir", "file"})
+				c.Count("fault=store-dir-kind")
+			case 3:
+				in.Entries[k].Kind, in.Entries[k].Enc = "dir", "dir"
+				c.Count("fault=sub-directory")
+			case 4:
+				in.Entries[k].Kind, in.Entries[k].Enc = "symlink", pick(c, symlinkEncs)
+				c.Count("fault=symlink")
+			case 5:
+				in.Entries[k].ParseOk, in.Entries[k].Enc = false, pick(c, brokenEncs)
+				if c.Rand.Intn(2) == 0 {
+					in.Entries[k].Certs = []CertFlags{}
+				}
+				c.Count("fault=unparsable")
+			case 6:
+				in.Entries[k].Certs, in.Entries[k].Enc = []CertFlags{}, "empty"
+				c.Count("fault=empty-file")
+			case 7, 8:
+				cs := in.Entries[k].Certs
+				pos := c.Rand.Intn(len(cs) + 1)
+				cs = append(cs[:pos:pos], append([]CertFlags{pick(c, bad)}, cs[pos:]...)...)
+				in.Entries[k].Certs = cs
+				c.Count("fault=unacceptable-certificate-added")
+			case 9:
+				in.Entries[k].Certs = []CertFlags{pick(c, bad)}
+				c.Count("fault=only-unacceptable-certificate")
+			case 10:
+				in.Entries = []Entry{}
+				c.Count("fault=empty-store")
+			case 11:
+				// same tree, another valid type (tsa is stricter than ca / signingAuthority)
+				in.StoreType = pick(c, validTypes)
+				c.Count("fault=retyped")
+			}
+			if len(in.Entries) == 0 {
+				break
+			}
+		}
+		// after the faults every entry gets an encoding that fits its kind
+		for k := range in.Entries {
+			e := &in.Entries[k]
+			has := func(xs []string) bool {
+				for _, x := range xs {
+					if x == e.Enc {
+						return true
+					}
+				}
+				return false
+			}
+			switch {
+			case e.Kind == "dir":
+				e.Enc = "dir"
+			case e.Kind == "symlink":
+				if !has(symlinkEncs) {
+					e.Enc = pick(c, symlinkEncs)
+				}
+			case e.ParseOk && len(e.Certs) == 0:
+				e.Enc = "empty"
+			case e.ParseOk:
+				if !has(parsableEncs) {
+					e.Enc = pick(c, parsableEncs)
+				}
+			default:
+				if !has(brokenEncs) {
+					e.Enc = pick(c, brokenEncs)
+				}
+			}
+		}
+		c.Count(fmt.Sprintf("faults=%d", faults))
+		if err := w.emitLoad(c, n, in, "random"); err != nil {
+			return err
+		}
+	}
+	return nil
+}
+
+// ---- the file-name check alone ------------------------------------------------------------
+
+func emitName(c *common.Ctx, s string, tag string) {
+	if !validUTF8(s) {
+		return
+	}
+	ok := file.IsValidFileName(s)
+	c.Emit(Input{Op: "nameCheck", StoreType: "", Name: s, DirKind: "missing", Entries: []Entry{}}, Obs{Ok: ok, Certs: []int{}})
+	c.Count("stream=" + tag)
+	if ok {
+		c.Count("name-check=accepted")
+	} else {
+		c.Count("name-check=rejected")
+	}
+}
+
+func validUTF8(s string) bool {
+	for _, r := range s {
+		if r == 0xFFFD {
+			return false
+		}
+	}
+	return true
+}
+
+func names(c *common.Ctx) {
+	// boundary characters around every range of the class, separators, controls, non-ASCII
+	alpha := []rune{'a', 'z', 'A', 'Z', '0', '9', '_', '.', '-', 'm', '5',
+		'/', ':', '@', '[', '`', '{', ',', '+', '\\', ' ', '\n', '\r', '\t', 0, '*', '?', '~', '$', '^', ']', 0x7f, 0xe4, 0xff41, 0x2028, 0x1F600}
+	small := []rune{'a', 'Z', '0', '_', '.', '-', '/', '\\', ' ', '\n', 0xe4, ':'}
+	emitName(c, "", "names-exhaustive")
+	for _, a := range alpha {
+		emitName(c, string(a), "names-exhaustive")
+		for _, b := range alpha {
+			emitName(c, string([]rune{a, b}), "names-exhaustive")
+		}
+	}
+	for _, a := range small {
+		for _, b := range small {
+			for _, d := range small {
+				emitName(c, string([]rune{a, b, d}), "names-exhaustive")
+			}
+		}
+	}
+	// dot-only names of every length up to 6, and every listed store name
+	for k := 1; k <= 6; k++ {
+		emitName(c, strings.Repeat(".", k), "names-listed")
+	}
+	for _, s := range append(append([]string{}, validNames...), invalidNames...) {
+		emitName(c, s, "names-listed")
+	}
+	// every code point up to U+024F alone, after and before a class character
+	for r := rune(0); r <= 0x24F; r++ {
+		emitName(c, string(r), "names-code-points")
+		emitName(c, "a"+string(r), "names-code-points")
+		emitName(c, string(r)+"a", "names-code-points")
+	}
+	count := 3000
+	if c.Thorough() {
+		count = 60000
+	}
+	for it := 0; it < count; it++ {
+		k := c.Rand.Intn(13)
+		rs := make([]rune, k)
+		for i := range rs {
+			switch c.Rand.Intn(10) {
+			case 0:
+				rs[i] = alpha[c.Rand.Intn(len(alpha))]
+			case 1:
+				rs[i] = rune(c.Rand.Intn(0x80))
+			default:
+				rs[i] = alpha[c.Rand.Intn(11)]
+			}
+		}
+		emitName(c, string(rs), "names-random")
+	}
+}
+
+// ---- dir.X509TrustStoreDir alone ------------------------------------------------------------
+
+func emitPath(c *common.Ctx, t, n string) {
+	if !validUTF8(t) || !validUTF8(n) {
+		return
+	}
+	p := dir.X509TrustStoreDir(t, n)
+	if !validUTF8(p) {
+		return
+	}
+	c.Emit(Input{Op: "storePath", StoreType: t, Name: n, DirKind: "missing", Entries: []Entry{}}, Obs{Ok: true, Certs: []int{}, Path: p})
+	c.Count("stream=store-path")
+	if cleanType(t) && cleanName(n) {
+		c.Count("store-path=known-type-plain-name")
+	} else {
+		c.Count("store-path=other")
+	}
+}
+
+func paths(c *common.Ctx) {
+	types := append(append([]string{}, validTypes...), invalidTypes...)
+	types = append(types, "../..", "/", "a//b", "./ca", "ca/.", "...")
+	allNames := append(append([]string{}, validNames...), invalidNames...)
+	allNames = append(allNames, "../..", "../../..", "../../../..", "../../../../x", "/", "//", "a//b", "./.", "a/./b", "a/b/../../..", ".../..", "..a/..", "x/")
+	for _, t := range types {
+		for _, n := range allNames {
+			emitPath(c, t, n)
+		}
+	}
+	count := 3000
+	if c.Thorough() {
+		count = 40000
+	}
+	const alpha = "ab..//.-_ "
+	word := func() string {
+		k := c.Rand.Intn(9)
+		b := make([]byte, k)
+		for i := range b {
+			b[i] = alpha[c.Rand.Intn(len(alpha))]
+		}
+		return string(b)
+	}
+	for it := 0; it < count; it++ {
+		t := word()
+		if c.Rand.Intn(2) == 0 {
+			t = pick(c, validTypes)
+		}
+		n := word()
+		if c.Rand.Intn(4) == 0 {
+			n = randomName(c)
+		}
+		emitPath(c, t, n)
+	}
+}
+
 // Run generates the cases of C13.
-func Run(c *common.Ctx) error { return errors.New("C13: harness not built yet") }
+func Run(c *common.Ctx) error {
+	w, err := buildWorld(c)
+	if err != nil {
+		return err
+	}
+	if d, err := os.MkdirTemp("/dev/shm", "xverif-c13-"); err == nil {
+		w.fast = d
+		defer os.RemoveAll(d)
+	}
+	n := 0
+	if err := w.systematic(c, &n); err != nil {
+		return err
+	}
+	if err := w.perCert(c, &n); err != nil {
+		return err
+	}
+	count := 6000
+	if c.Thorough() {
+		count = 100000
+	}
+	if err := w.random(c, &n, count); err != nil {
+		return err
+	}
+	names(c)
+	paths(c)
+	c.Note("pool of %d certificates covering all 12 realisable combinations of (CA, cert-sign key usage, signed by own key, issuer=subject) twice, "+
+		"plus a root without key usage, a self-signed certificate without basic constraints and an RSA root; every pool certificate's flags are re-measured with crypto/x509 before use. "+
+		"%d real directory trees: systematic types x names x store-directory kinds x 11 entry templates; every certificate alone and in pairs per store type; "+
+		"random loadable stores with 0-3 injected faults (type, name, directory kind, sub-directory, symlink, unparsable, empty file, unacceptable certificate, empty store, retyped); "+
+		"decoy certificates outside the store in half of the trees. For known type + plain name the store is created at root+\"/truststore/x509/\"+type+\"/\"+name by string concatenation. "+
+		"Store path: dir.X509TrustStoreDir on all listed types x names plus random slash/dot words against the model of path.Join. Name check: all strings of length <=2 over %d boundary characters, length 3 over 12, every code point <= U+024F in three positions, random strings.",
+		len(w.pool), n, 36)
+	return nil
+}
